@@ -199,6 +199,105 @@ func runC07(c *Ctx) {
 		}
 	}
 	r.Floor("delegate-input", ni, 10, "text arguments handed to the tokenizer or to another entry point")
+	// delegate-config: parser / tokenizer configuration (With*, Set* of those packages) in an entry point comes from
+	// the entry point's own configuration parameters or constants, never from the text being parsed
+	r.Rule("delegate-config", "in an entry point, arguments of parser/tokenizer configuration calls (With…/Set… of pkg/sql/parser and pkg/sql/tokenizer) do not depend on the SQL text parameter: an entry point that guesses its configuration from the text parses under different rules than its siblings")
+	nc := 0
+	for _, fn := range entries {
+		var textPars []*ssa.Parameter
+		for _, par := range fn.Params {
+			if isStringOrBytes(par.Type()) {
+				textPars = append(textPars, par)
+			}
+		}
+		seq := 0
+		for _, b := range fn.Blocks {
+			for _, in := range b.Instrs {
+				call, ok := in.(*ssa.Call)
+				if !ok {
+					continue
+				}
+				callee := call.Call.StaticCallee()
+				if callee == nil || !core.InPkgs(callee, "pkg/sql/parser", "pkg/sql/tokenizer") || !(strings.HasPrefix(callee.Name(), "With") || strings.HasPrefix(callee.Name(), "Set")) {
+					continue
+				}
+				nc++
+				seq++
+				key := core.FnName(fn) + "|" + callee.Name() + sprintf("#%d", seq)
+				bad := ""
+				for _, a := range call.Call.Args {
+					for _, tp := range textPars {
+						// a parameter that is itself the configuration (dialect string) is fine: only parameters that are tokenized count as text
+						if !paramIsTokenized(fn, tp, textSink) {
+							continue
+						}
+						if dependsThroughCalls(a, tp, 0, map[ssa.Value]bool{}) {
+							bad = "argument of " + callee.Name() + " is computed from the SQL text parameter " + tp.Name()
+						}
+					}
+				}
+				if bad == "" {
+					r.OK("delegate-config", key, p.Pos(call.Pos()), "configuration from parameters/constants")
+				} else {
+					r.Violate("delegate-config", key, p.Pos(call.Pos()), bad+": this entry point chooses its dialect/mode from the input, so it accepts or rejects inputs differently from the other entry points")
+				}
+			}
+		}
+	}
+	r.Extra("config_calls_in_entry_points", nc)
+}
+
+// paramIsTokenized: the parameter (or a conversion of it) is handed to the tokenizer or to another entry point as text.
+func paramIsTokenized(fn *ssa.Function, par *ssa.Parameter, sinks map[*ssa.Function]bool) bool {
+	for _, b := range fn.Blocks {
+		for _, in := range b.Instrs {
+			call, ok := in.(*ssa.Call)
+			if !ok {
+				continue
+			}
+			callee := call.Call.StaticCallee()
+			if callee == nil || !sinks[callee] {
+				continue
+			}
+			for _, a := range call.Call.Args {
+				if isStringOrBytes(a.Type()) && dependsThroughCalls(a, par, 0, map[ssa.Value]bool{}) {
+					return true
+				}
+			}
+		}
+	}
+	return false
+}
+
+// dependsThroughCalls: v is computed from target, also through function calls (any argument).
+func dependsThroughCalls(v, target ssa.Value, depth int, seen map[ssa.Value]bool) bool {
+	if v == target {
+		return true
+	}
+	if depth > 10 || seen[v] {
+		return false
+	}
+	seen[v] = true
+	in, ok := v.(ssa.Instruction)
+	if !ok {
+		return false
+	}
+	if u, ok := v.(*ssa.UnOp); ok {
+		if a, ok := u.X.(*ssa.Alloc); ok {
+			for _, ref := range core.Referrers(a) {
+				if st, ok := ref.(*ssa.Store); ok && st.Addr == ssa.Value(a) && dependsThroughCalls(st.Val, target, depth+1, seen) {
+					return true
+				}
+			}
+		}
+	}
+	var ops []*ssa.Value
+	for _, o := range in.Operands(ops) {
+		if *o != nil && dependsThroughCalls(*o, target, depth+1, seen) {
+			return true
+		}
+	}
+	return false
 }
 
 // inputIdentity: v is a parameter (or an element of a parameter slice in a batch loop), up to string/[]byte conversion.
